@@ -1,7 +1,8 @@
 SPECIFICATION GSpec
 CONSTANTS
-  MaxSteps = 5
+  MaxSteps = 4
+  CopyKinds = {2, 4, 6}
   Variant = "asWritten"
   Codes = {101, 103, 404}
-INVARIANTS Emit FreshAfterReset HijackReaches CodeOK LastWins
+INVARIANTS Emit FreshAfterReset HijackReaches UnderExact CodeOK LastWins
 CHECK_DEADLOCK FALSE
